@@ -10,7 +10,7 @@ package stack
 //
 //verif:prop C03
 //verif:param st 0..19
-//verif:param n quick=1..14 thorough=1..20
+//verif:param n quick=1..14 thorough=1..26
 //verif:param plen 0..2
 //verif:param sh 0..1
 //verif:contract (*Func).Init parseArgs
